@@ -22,7 +22,7 @@ m = {
     "version": 1,
     "setup_cmd": "true",
     "hooks": {"guard": "PY_PDE_VERIF", "enable": "no hooks: the technique is static (AST -> verification conditions) plus native replay; nothing in /repo is guarded", "baseline_off_cmd": "cd /repo && /venv/bin/python -m pytest -ra -q -p no:cacheprovider --timeout=900 --continue-on-collection-errors", "source_commits": [], "add_only": True},
-    "engines": [{"name": "pdv", "path": "/verif/pdv", "serves_properties": sorted(CLAIMS), "kind_free_text": "self-made verification-condition generator: symbolic execution of the real functions' AST (re-read from /repo on every run) against sidecar contracts; obligations discharged by z3, a sympy rational-function normal form with z3 side conditions, and cvc5; native replay and labelled bounded stand-ins under /venv/bin/python"}],
+    "engines": [{"name": "pdv", "path": "/verif/pdv", "serves_properties": sorted(CLAIMS), "kind_free_text": "self-made verification-condition generator: symbolic execution of the real functions' AST (re-read from /repo on every run) against sidecar contracts; obligations discharged by z3, a sympy rational-function normal form with z3 side conditions, and cvc5 (summation lemmas of C05/C12/C17 by Lean 4 + Mathlib, files under /verif/lean); native replay and labelled bounded stand-ins under /venv/bin/python"}],
     "checks": checks,
     "not_applicable": na,
     "notes": "exit codes of ./check: 0 held, 1 VIOLATION (line printed), 2 UNDECIDED (solver unknown / unsupported syntax / anchor not found; never reported as violation), 3 checker broken. known_findings.json lists genuine defects recorded rather than repaired.",
